@@ -39,6 +39,15 @@ thread_local! {
     pub static PANIC_LOCS: RefCell<Vec<(String, bool)>> = const { RefCell::new(Vec::new()) };
 }
 
+/// Is this panic location inside the crate under test?  (`/repo/`, or the scratch copy a
+/// seeded-change run builds against: VH_REPO_PREFIX)
+pub fn in_crate(loc: &str) -> bool {
+    match std::env::var("VH_REPO_PREFIX") {
+        Ok(p) => loc.starts_with(&p),
+        Err(_) => loc.starts_with("/repo/"),
+    }
+}
+
 pub fn note_panic(info: &std::panic::PanicHookInfo<'_>) {
     let loc = info.location().map(|l| format!("{}:{}", l.file(), l.line())).unwrap_or_else(|| "?".into());
     let stuck = info.payload().downcast_ref::<crate::hooks::Stuck>().is_some();
@@ -124,7 +133,7 @@ pub fn run(p: &AdvParams, sc: &str) -> (Vec<Vec<String>>, Value) {
                 if v["stuck"].as_bool() == Some(true) {
                     stuck += 1;
                     out.push(json!({"e":"Stuck"}).to_string());
-                } else if loc.starts_with("/repo/") {
+                } else if in_crate(loc) {
                     clean += 1;
                     out.push(json!({"e":"Panic","clean":true,"loc":loc}).to_string());
                 } else {
@@ -139,7 +148,7 @@ pub fn run(p: &AdvParams, sc: &str) -> (Vec<Vec<String>>, Value) {
                     if *is_stuck {
                         stuck += 1;
                         out.push(json!({"e":"Stuck"}).to_string());
-                    } else if loc.starts_with("/repo/") {
+                    } else if in_crate(loc) {
                         clean += 1;
                         out.push(json!({"e":"Panic","clean":true,"loc":loc,"msg":v["msg"]}).to_string());
                     } else {
@@ -157,7 +166,7 @@ pub fn run(p: &AdvParams, sc: &str) -> (Vec<Vec<String>>, Value) {
         if *is_stuck {
             continue;
         }
-        if loc.starts_with("/repo/") {
+        if in_crate(loc) {
             // a panic the scenario code caught itself (or during unwinding)
             clean += 1;
         } else {
